@@ -39,7 +39,7 @@ func C08(c *Ctx) int {
 		mr, sim = 3, 12000
 	}
 	if err := c.TokenGameRound(fs, ps, RoundOpts{Label: "answers", MaxSteps: 8, Simulate: sim,
-		Features: []string{"err", "again", "conc"}, MaxRetry: mr}); err != nil {
+		Features: []string{"err", "again", "conc", "partial"}, MaxRetry: mr}); err != nil {
 		c.Infraf("%v", err)
 	}
 	c.Extra["programs"] = len(ps)
